@@ -5,7 +5,7 @@ from genlib import *
 LEAN_MODULES = ["MpirProofs.Props.C10"]
 THEOREMS = ["Mpir.Bits." + t for t in [
     "and_n_spec", "ior_n_spec", "xor_n_spec", "andn_n_spec", "com_n_spec", "nand_n_spec", "nior_n_spec", "xnor_n_spec", "iorn_n_spec",
-    "mpz_and_spec", "mpz_ior_spec", "mpz_xor_spec", "mpz_com_spec", "tstbit_spec", "setbit_spec", "clrbit_spec", "combit_spec", "mpn_popcount_spec", "mpn_hamdist_spec", "popcount_spec", "scan1_spec", "scan0_spec", "mpn_scan1_spec", "mpn_scan0_spec", "hamdist_spec",
+    "mpz_and_spec", "mpz_ior_spec", "mpz_xor_spec", "mpz_com_spec", "tstbit_spec", "setbit_spec", "clrbit_spec", "combit_spec", "mpn_popcount_spec", "mpn_hamdist_spec", "popcount_spec", "scan1_spec", "scan0_spec", "mpn_scan1_spec", "mpn_scan0_spec", "hamdist_spec", "bitops_on_all_integers",
 ]]
 TRUSTED = ["hand-written models lean/Mpir/Model/Bits.lean (tied to mpz/{and,ior,xor,com,setbit,clrbit,combit,tstbit,scan0,scan1,hamdist}.c, "
            "mpn/generic/{*_n,com_n,popcount,hamdist,scan0,scan1}.c by differential execution on every run)",
